@@ -15,6 +15,7 @@ import (
 	"strings"
 	"sync"
 	"time"
+	"unicode"
 )
 
 type Check struct {
@@ -300,6 +301,14 @@ type catalogService struct {
 
 func (a *Agent) catalog(w http.ResponseWriter, r *http.Request) {
 	name := strings.TrimPrefix(r.URL.Path, "/v1/catalog/service/")
+	// like the real agent (since 1.0.3) requests whose path holds a non-printable character are refused, for as long as
+	// such a service is registered (registration goes through a JSON body and is accepted)
+	for _, ch := range r.URL.Path {
+		if !unicode.IsPrint(ch) {
+			http.Error(w, "Request contains invalid characters", 400)
+			return
+		}
+	}
 	a.mu.Lock()
 	a.CatalogQueries++
 	if a.failCatalog > 0 {
